@@ -37,7 +37,27 @@ Proportional(inp, out) ==
         (inp.w[i] > 0 /\ inp.w[j] > 0) =>
             Abs(out[i] * inp.l[i] * inp.w[j] - out[j] * inp.l[j] * inp.w[i]) <= inp.l[i] * inp.w[j] + inp.l[j] * inp.w[i]
 
-Contract(inp, out) == InRange(inp, out) /\ ZeroIff(inp, out) /\ OrderKept(inp, out) /\ Proportional(inp, out)
+(* the scale (documentation of initial-weight: "Blue/green on deploy mode also uses initial-weight as its minimum weight value,
+   provided that the maximum is lesser than or equal 256"): with m the non-zero group of the smallest per-server ratio W/L and
+   M the one of the largest, a server of group i gets  iw x (W[i]/L[i]) / (W[m]/L[m])  when that gives M at most 256, and
+   256 x (W[i]/L[i]) / (W[M]/L[M])  otherwise -- truncated, never below 1; one unit of tolerance for the float32 arithmetic.
+   Without it "up to integer rounding" would accept the degenerate answer 1 : 1 for any two weights. *)
+NonZero(inp) == {i \in Grp(inp) : inp.w[i] > 0}
+MinG(inp) == CHOOSE m \in NonZero(inp) : \A j \in NonZero(inp) : inp.w[m] * inp.l[j] <= inp.w[j] * inp.l[m]
+MaxG(inp) == CHOOSE m \in NonZero(inp) : \A j \in NonZero(inp) : inp.w[m] * inp.l[j] >= inp.w[j] * inp.l[m]
+Scaled(inp, out) ==
+    NonZero(inp) # {} =>
+        LET m == MinG(inp)
+            M == MaxG(inp)
+            \* iw x ratio(M) / ratio(m) <= 256
+            fits == inp.iw * inp.w[M] * inp.l[m] <= 256 * inp.w[m] * inp.l[M]
+        IN \A i \in NonZero(inp) :
+              LET num == IF fits THEN inp.iw * inp.w[i] * inp.l[m] ELSE 256 * inp.w[i] * inp.l[M]
+                  den == IF fits THEN inp.l[i] * inp.w[m] ELSE inp.l[i] * inp.w[M]
+              IN \/ Abs(out[i] * den - num) <= den + den \div 64   \* |out - ideal| <= 1 (+ float32 slack on large values)
+                 \/ (out[i] = 1 /\ num < den)
+
+Contract(inp, out) == InRange(inp, out) /\ ZeroIff(inp, out) /\ OrderKept(inp, out) /\ Proportional(inp, out) /\ Scaled(inp, out)
 
 (* blue/green mode "pod": the configured weight is written as is *)
 PodMode(inp, out) == \A i \in Grp(inp) : out[i] = inp.w[i]
@@ -47,7 +67,8 @@ Broken(inp, out, mode) ==
     ELSE IF ~InRange(inp, out) THEN "InRange"
     ELSE IF ~ZeroIff(inp, out) THEN "ZeroIff"
     ELSE IF ~OrderKept(inp, out) THEN "OrderKept"
-    ELSE IF ~Proportional(inp, out) THEN "Proportional" ELSE "none"
+    ELSE IF ~Proportional(inp, out) THEN "Proportional"
+    ELSE IF ~Scaled(inp, out) THEN "Scaled" ELSE "none"
 
 ---------------------------------------------------------------------------
 (* enumeration of the inputs *)
